@@ -118,6 +118,9 @@ type pathState struct {
 	loops      map[*ssa.BasicBlock]int
 	ended      bool
 	sigs       []*sigRec
+	sigRecs    []*sigRecord
+	sigCounter int
+	sigIDs     map[string]int
 	hstates    map[*value]*hstate
 	lastModel  map[string]*big.Int
 	known      map[*Term]*Term
